@@ -5,6 +5,8 @@ import (
 	"strings"
 
 	"github.com/robertkrimen/otto"
+
+	"verif/mc/ox"
 )
 
 // deep-source: "for any source text whatsoever" includes text that nests (or
@@ -48,6 +50,12 @@ var deepConstructs = []deepConstruct{
 	{"switch-nest", "", "switch(1){default:", "1", "}", ""},
 	{"regexp-group", "/", "(", "a", ")", "/.test('a')"},
 	{"regexp-class", "/", "[a", "", "]", "/.test('a')"},
+	{"regexp-noncapture", "/", "(?:", "a", ")", "/.test('a')"},
+	{"regexp-lookahead", "/", "(?=", "a", ")", "/.test('a')"},
+	{"regexp-alternation", "/a", "|a", "", "", "/.test('a')"},
+	{"regexp-alternation-group", "/", "(a|", "b", ")", "/.test('a')"},
+	{"regexp-quantifier", "/a", "{1}", "", "", "/.test('a')"},
+	{"regexp-star-group", "/", "(", "a", ")*", "/.test('a')"},
 	{"string-escapes", `"`, `\\u0041`, "", "", `"`},
 	{"semicolons", "", ";", "", "", ""},
 	{"var-list", "var a0", ",a", "", "", ""},
@@ -57,6 +65,29 @@ var deepConstructs = []deepConstruct{
 	{"params", "(function(a", ",a", "", "", "){})"},
 	{"comment-nest", "", "/*", "", "*/", "1"},
 	{"line-continuation", `"`, "\\\n", "", "", `"`},
+}
+
+// regexpBody strips the literal delimiters and the test call of the regexp-*
+// constructs ("/((a))/.test('a')" -> "((a))"); other texts pass unchanged.
+func regexpBody(text string) string {
+	if strings.HasPrefix(text, "/") {
+		text = text[1:]
+		if i := strings.LastIndex(text, "/.test("); i >= 0 {
+			text = text[:i]
+		}
+	}
+	return text
+}
+
+// doublingScript builds the same pattern inside the script by doubling strings
+// (22 doublings of "(" are 4 M characters: the whole script is ~200 bytes).
+func doublingScript(c deepConstruct, n int, closed bool) string {
+	rep := `function rep(s, n){ var r = ""; while (n > 0) { if (n & 1) r += s; s += s; n >>= 1 } return r } `
+	body := fmt.Sprintf(`%s + rep(%s, %d) + %s`, ox.JSLit(regexpBody(c.Pre)), ox.JSLit(c.Open), n, ox.JSLit(c.Mid))
+	if closed {
+		body += fmt.Sprintf(` + rep(%s, %d)`, ox.JSLit(c.Close), n)
+	}
+	return rep + `var p = ` + body + `; void [new RegExp(p), "ab".match(p)]`
 }
 
 func deepText(c deepConstruct, n int, closed bool) string {
@@ -102,10 +133,12 @@ var deepRoutes = []struct {
 		return err
 	}},
 	{"RegExp", func(vm *otto.Otto, text string) error {
-		_ = vm.Set("__text", text)
-		_, err := vm.Run(`void new RegExp(__text)`)
+		_ = vm.Set("__text", regexpBody(text))
+		_, err := vm.Run(`void [new RegExp(__text), "ab".match(__text), "ab".search(__text), "ab".split(__text)]`)
 		return err
 	}},
+	// RegExp-doubling: the script builds the pattern itself (handled in runDeepSource)
+	{"RegExp-doubling", nil},
 }
 
 // deepDataActions walk the structure `head` from Go.
@@ -153,6 +186,13 @@ func deepDepths(c deepConstruct, closed bool, route string, thorough bool) []int
 	if route == "Run" && (c.Name == "array" || c.Name == "paren" || (c.Name == "not" && closed)) {
 		out = append(out, 1000000)
 	}
+	if strings.HasPrefix(c.Name, "regexp-") && strings.Contains(c.Open, "(") && (route == "Run" || route == "RegExp" || route == "RegExp-doubling") {
+		// one Go frame per "(" in the regexp transformer: 5*10^6 exhaust the default 1 GB stack (4*10^6 is the reported threshold)
+		if !closed {
+			out = append(out, 100000)
+		}
+		out = append(out, 5000000)
+	}
 	return out
 }
 
@@ -162,6 +202,9 @@ func runDeepSource(r *rc) {
 	for _, c := range deepConstructs {
 		for _, closed := range []bool{true, false} {
 			for _, rt := range deepRoutes {
+				if rt.Do == nil && !strings.HasPrefix(c.Name, "regexp-") {
+					continue
+				}
 				for _, n := range deepDepths(c, closed, rt.Name, r.Thorough()) {
 					key := fmt.Sprintf("%s|%d|%v|%s", c.Name, n, closed, rt.Name)
 					if !r.MineKey(key) {
@@ -181,6 +224,10 @@ func runDeepSource(r *rc) {
 						Do: func(vm *otto.Otto) (otto.Value, error) {
 							// the result is discarded: converting a 10^5-deep array to a
 							// string is legitimate deep recursion of a different kind
+							if rt.Do == nil { // RegExp-doubling
+								_, err := vm.Run(doublingScript(c, n, closed))
+								return otto.Value{}, err
+							}
 							return otto.Value{}, rt.Do(vm, deepText(c, n, closed))
 						}}
 					execGeneric(r, base, g, 211)
